@@ -158,9 +158,33 @@ class Analysis:
         if 'fn' in o:
             f = o['fn']
             return ('fn', f['def'], tuple(f.get('substs') or ()), tuple(f.get('subst_heads') or ()))
+        if 'promoted' in o:
+            t = self._promoted_term(o['promoted'])
+            if t is not None:
+                return t
         if 'cdef' in o:
             return ('cnamed', o['cdef'], o['ty'], o.get('val'))
         return ('const', o['ty'], o.get('val', o.get('text')))
+
+    def _promoted_term(self, k):
+        """value of promoted constant k of this body: the term of its return place (`&AGG`)"""
+        proms = self.b.raw.get('promoted') or []
+        if k >= len(proms):
+            return None
+        key = ('prom', k)
+        if key in self._tcache:
+            return self._tcache[key]
+        from facts import Body
+        raw = dict(proms[k])
+        raw.update({'q': self.b.q + '::{promoted#%d}' % k, 'kind': 'Promoted', 'name': '', 'sp': self.b.sp})
+        pb = Body(raw, self.b.facts)
+        pa = Analysis(pb)
+        t = None
+        for r in pa.cfg.returns:
+            t = pa.local_term(r, len(pb.blocks[r]['st']), 0)
+        # a promoted body has no parameters: its term is closed
+        self._tcache[key] = t
+        return t
 
     def term_at(self, bb, idx, o):
         k = o['k']
@@ -315,7 +339,7 @@ class Analysis:
                 if not is_local_place(p) or p['l'] in self.escaped:
                     addr = self.place_term(bi, k, p)
                     val = self.rvalue_term(bi, k, s['rv'])
-                    out.append((addr, val, (bi, k), 'assign'))
+                    out.append((addr, val, (bi, k), 'assign' if not is_local_place(p) else 'local'))
             t = blk['t']
             if t['k'] == 'call':
                 idx = len(blk['st'])
@@ -331,7 +355,7 @@ class Analysis:
                 if not is_local_place(p) or p['l'] in self.escaped:
                     if ct is None:
                         ct = self.call_term(bi)
-                    out.append((self.place_term(bi, idx, p), ct, (bi, idx), 'assign'))
+                    out.append((self.place_term(bi, idx, p), ct, (bi, idx), 'assign' if not is_local_place(p) else 'local'))
         self._stores = out
         return out
 
